@@ -99,7 +99,10 @@ def cost_from_impl(A, value):
             return INF
         if value != int(value):
             raise ValueError(f"non-integral cost {value}")
-    return int(value)
+    value = int(value)
+    # TLC integers are 32-bit: a finite cost that large cannot be right, any
+    # representable value far from every real cost gives the same verdict
+    return max(-(10 ** 9), min(10 ** 9, value))
 
 
 def coherent_dtl(c):
